@@ -1,6 +1,7 @@
 import McpModel.Base.Proto
 import McpModel.Gate.Monitor
 import McpModel.Gate.Custom
+import McpModel.Gate.Mid
 /-!
 Driver for E3 `gate`: replays the harness's envelope descriptors on the admission model and evaluates
 the C06 / C02 monitors on the IMPLEMENTATION's observations.
@@ -248,6 +249,7 @@ def parseCOp : List String → Option Custom.Op
   | ["copen", "mem"] => some (.openS .mem)
   | ["copen", "http"] => some (.openS .http)
   | ["copen", "cli"] => some (.openS .cli)
+  | ["copen", "hnew"] => some (.openS .hnew)
   | ["chs", k] => k.toNat?.map .hs
   | ["ccall", k, n, id, shape] => do
     let k ← k.toNat?
@@ -256,6 +258,17 @@ def parseCOp : List String → Option Custom.Op
     if id != "id" && id != "noid" then none
     pure (.call { k := k, name := n, hasId := id == "id", params := sh })
   | _ => none
+
+/-- the two-label race ops: `choldq <k>`, `ccallq <k> <hex name> <id|noid> <shape>`, `crelease <k>` -/
+def parseQOp (toks : List String) : Option Custom.QOp :=
+  match toks with
+  | ["choldq", k] => k.toNat?.map .holdq
+  | ["crelease", k] => k.toNat?.map .release
+  | "ccallq" :: rest =>
+    (match parseCOp ("ccall" :: rest) with
+      | some (.call c) => some (.callq c)
+      | _ => none)
+  | _ => (parseCOp toks).map .base
 
 def showCObs : Custom.Obs → String
   | .ack true => "ok"
@@ -299,8 +312,22 @@ def cclauseText (op : Custom.Op) (impl : String) : Custom.Clause → String
     | .dropped => s!"C02: call of the REGISTERED custom method {name} on an initialized session received no response bearing its id (dropped): {impl}"
     | .unknownCode => s!"C02: call of the unknown method {name} not answered method-not-found (-32601; a 4xx without a message where the HTTP transport pre-validates): {impl}"
     | .paramsCode => s!"C02: undecodable params of the registered custom method {name} not answered -32602 (or its handler ran): {impl}"
+    | .modernNoMeta => s!"C06: custom method {name} was served under the 2026-07-28 protocol although its params carry no per-request metadata: {impl}"
     | .ranTwice => s!"C02: the handler of the custom method {name} ran more than once for one call"
     | .unreadable => "C02: unreadable observation"
+
+def showWs (ws : List W) : String := if ws.isEmpty then "-" else ";".intercalate (ws.map showW)
+
+/-- `r=<w1;w2..|-> h=<n>` (canonical text only) -/
+def parseRelease (impl : String) : Option (List W × Nat) :=
+  match field "r" impl, (field "h" impl).bind String.toNat? with
+  | some r, some n =>
+    let ws := if r == "-" then [] else (r.splitOn ";").map parseW
+    if s!"r={showWs ws} h={n}" == impl then some (ws, n) else none
+  | _, _ => none
+
+def queueUpd (qs : List (Nat × List Custom.Call)) (c : Custom.Call) : List (Nat × List Custom.Call) :=
+  qs.map (fun p => if p.1 == c.k then (p.1, p.2 ++ [c]) else p)
 
 /-! ## engine -/
 
@@ -311,6 +338,8 @@ structure DState where
   pid : String := ""     -- property under check (`property <PID>` record): only its clauses are reported
   cs : Custom.State := {}    -- stream `custom`: the model's server and sessions
   cm : Custom.Mem := {}      -- stream `custom`: the monitor's memory
+  cqs : List (Nat × List Custom.Call) := []   -- the model's held sessions and their queues
+  mq : List (Nat × List Custom.Call) := []    -- the monitor's: holds / queued calls that were ACKNOWLEDGED
 
 def pidTok : PID → String
   | .C02 => "C02"
@@ -332,6 +361,18 @@ def engine : Engine DState where
     -- `hold`: from here on the user's notification handlers of the case park until the next envelope has
     -- been written (a schedule, not an input of the session: the model's step is the same)
     | ["hold"] => (d, { model := "ok" })
+    -- `holdinit`: the middleware parks an initialize that reached the handler chain until the next envelope has
+    -- been written; `mid m=<hex method> <legacy|new>`: what is visible of that next envelope at that point
+    | ["holdinit"] => (d, { model := "ok" })
+    | ["mid", mtok, kind] =>
+      match kv "m" mtok, field "mw" impl, field "uh" impl, field "w" impl with
+      | some mname, some mw, some uh, some w =>
+        let o : MidObs := { mw := mw != "-", uh := uh != "-", w := parseW w }
+        let viol := if (d.pid == "" || d.pid == "C06") && midViolates d.mon.prevSt.init.isSome d.mon.opened mname (kind == "new") o
+          then some s!"C06: {mname} reached a handler (or was answered with a result) while the session's initialize was still being handled — no initialize had been accepted yet: mw={mw} uh={uh} w={w}"
+          else none
+        (d, { model := "mw=- uh=- w=none", violated := viol })
+      | _, _, _, _ => (d, { model := "mw=- uh=- w=none", violated := some "C06: unreadable observation (mid)" })
     | ["tr", spec] =>
       match parseTr spec with
       | none => (d, { model := "bad-op" })
@@ -339,18 +380,45 @@ def engine : Engine DState where
         let tv := transportVersions f
         ({ d with st := fresh tv, mon := { d.mon with tv := tv } }, { model := s!"sv={showVersions tv}" })
     | _ =>
-      match parseCOp toks with
-      | some op =>
-        (match op with
-          | .call c => if Custom.isStandard c.name then none else some op
-          | _ => some op) |>.elim (d, { model := "bad-op" }) fun op =>
-        let kind := Custom.kindOf d.cs op
-        let (cs', res) := Custom.step d.cs op
-        let obs := parseCObs op impl
-        let cl := match Custom.monitor d.cm op obs with
+      match parseQOp toks with
+      | some qop =>
+        (match qop with
+          | .base (.call c) => if Custom.isStandard c.name then none else some qop
+          | .callq c => if Custom.isStandard c.name then none else some qop
+          | _ => some qop) |>.elim (d, { model := "bad-op" }) fun qop =>
+        let q : Custom.QState := { base := d.cs, queues := d.cqs }
+        let (q', qres) := Custom.qstep q qop
+        let report (c : Option Custom.Clause) (op : Custom.Op) : Option String :=
+          match c with
           | some c => if d.pid == "" || d.pid == pidTok c.pid then some (cclauseText op impl c) else none
           | none => none
-        ({ d with cs := cs', cm := Custom.memNext d.cm op obs }, { model := showCRes kind res, violated := cl })
+        match qop, qres with
+        | .base op, .base res =>
+          let kind := Custom.kindOf d.cs op
+          let obs := parseCObs op impl
+          ({ d with cs := q'.base, cqs := q'.queues, cm := Custom.memNext d.cm op obs },
+           { model := showCRes kind res, violated := report (Custom.monitor d.cm op obs) op })
+        | .holdq k, r =>
+          let mq' := if impl == "ok" && !(d.mq.any (fun (p : Nat × List Custom.Call) => p.1 == k)) then (k, []) :: d.mq else d.mq
+          ({ d with cs := q'.base, cqs := q'.queues, mq := mq' }, { model := if r == Custom.QRes.ok then "ok" else "na" })
+        | .callq c, r =>
+          let mq' := if impl == "queued" then queueUpd d.mq c else d.mq
+          ({ d with cs := q'.base, cqs := q'.queues, mq := mq' }, { model := if r == Custom.QRes.queued then "queued" else "na" })
+        | .release k, r =>
+          let model := match r with
+            | Custom.QRes.released outs =>
+              s!"r={showWs (outs.map (fun (o : Custom.Out) => Custom.wOfAns o.ans))} h={(outs.filter (fun (o : Custom.Out) => o.ran)).length}"
+            | _ => "na"
+          let queued : List Custom.Call := match d.mq.find? (fun (p : Nat × List Custom.Call) => p.1 == k) with
+            | some p => p.2
+            | none => []
+          let cl := if impl == "na" then none else
+            match parseRelease impl with
+            | some (ws, _) => Custom.monitorRelease queued ws
+            | none => some .unreadable
+          ({ d with cs := q'.base, cqs := q'.queues, mq := d.mq.filter (fun (p : Nat × List Custom.Call) => p.1 != k) },
+           { model := model, violated := report cl (.call ((queued.head?).getD ⟨k, "", false, .absent⟩)) })
+        | _, _ => ({ d with cs := q'.base, cqs := q'.queues }, { model := "na" })
       | none =>
       match parseMsg toks with
       | none => (d, { model := "bad-op" })
